@@ -15,6 +15,18 @@ def sq(n):
     return p.glyph()
 
 
+def sq_charstring(n, width, cff2=False):
+    from fontTools.pens.t2CharStringPen import T2CharStringPen
+
+    p = T2CharStringPen(None if cff2 else width, None, CFF2=cff2)
+    p.moveTo((0, 0))
+    p.lineTo((0, 100 + n))
+    p.lineTo((100 + 2 * n, 100 + n))
+    p.lineTo((100 + 2 * n, 0))
+    p.closePath()
+    return p.getCharString()
+
+
 def feature_text(r, bases, ligs, marks, use_ext):
     """random feature file over the given glyph partitions"""
     pick = lambda pool, k: r.sample(pool, min(k, len(pool)))
@@ -237,7 +249,7 @@ def add_handmade_context_lookups(font, r, bases):
     return made
 
 
-def make_font(r, nglyphs=None, with_colr=True):
+def make_font(r, nglyphs=None, with_colr=True, outlines="glyf"):
     """-> TTFont (reloaded from bytes, fully decompiled) with GSUB/GPOS/GDEF of every lookup type and format."""
     from fontTools.feaLib.builder import addOpenTypeFeaturesFromString
     from fontTools.fontBuilder import FontBuilder
@@ -253,10 +265,15 @@ def make_font(r, nglyphs=None, with_colr=True):
     if len(marks) < 2:
         marks = ligs[-2:]
         ligs = ligs[:-2] or bases[-2:]
-    fb = FontBuilder(1000, isTTF=True)
+    fb = FontBuilder(1000, isTTF=outlines == "glyf")
     fb.setupGlyphOrder(names)
     fb.setupCharacterMap({0x40 + i: nm for i, nm in enumerate(names) if i})
-    fb.setupGlyf({nm: sq(i) for i, nm in enumerate(names)})
+    if outlines == "glyf":
+        fb.setupGlyf({nm: sq(i) for i, nm in enumerate(names)})
+    elif outlines == "cff":
+        fb.setupCFF("T-R", {"FullName": "T R"}, {nm: sq_charstring(i, 500 + 7 * i) for i, nm in enumerate(names)}, {})
+    else:
+        fb.setupCFF2({nm: sq_charstring(i, 500 + 7 * i, cff2=True) for i, nm in enumerate(names)})
     fb.setupHorizontalMetrics({nm: (500 + 7 * i, 0) for i, nm in enumerate(names)})
     fb.setupHorizontalHeader(ascent=800, descent=-200)
     fb.setupOS2()
